@@ -27,6 +27,8 @@ func init() {
 			{Name: "diff-by-selection-equality", File: "route/path.go", Old: "\t\tif p == needle {\n", New: "\t\tif p == needle || p.Equal(needle) {\n", Expect: "diff-membership-is-identity"},
 			{Name: "refactor-diff-operands-swapped", Silent: true, File: "route/path.go", Old: "\t\tif p == needle {\n", New: "\t\tif needle == p {\n"},
 			{Name: "withdraw-limit-from-wrong-route", File: "routingtable/locRIB/loc_rib.go", Old: "\t\tnewPathsLimit := int(math.Min(int(newMaxPaths), len(newRoute.Paths())))\n\n\t\twithdraw", New: "\t\tnewPathsLimit := int(math.Min(int(oldMaxPaths), len(newRoute.Paths())))\n\t\t_ = newMaxPaths\n\n\t\twithdraw", Expect: "limit-from-own-route"},
+			{Name: "diff-cached-by-one-limit", File: "routingtable/locRIB/loc_rib.go", Old: "\tfor _, client := range a.clientManager.Clients() {\n\t\topts := a.clientManager.GetOptions(client)\n\t\toldMaxPaths := opts.GetMaxPaths(oldRoute.ECMPPathCount())\n\t\tnewMaxPaths := opts.GetMaxPaths(newRoute.ECMPPathCount())\n\n\t\toldPathsLimit := int(math.Min(int(oldMaxPaths), len(oldRoute.Paths())))\n\t\tnewPathsLimit := int(math.Min(int(newMaxPaths), len(newRoute.Paths())))\n\n\t\twithdraw := route.PathsDiff(oldRoute.Paths()[0:oldPathsLimit], newRoute.Paths()[0:newPathsLimit])\n", New: "\tcache := map[int][]*route.Path{}\n\tfor _, client := range a.clientManager.Clients() {\n\t\topts := a.clientManager.GetOptions(client)\n\t\toldMaxPaths := opts.GetMaxPaths(oldRoute.ECMPPathCount())\n\t\tnewMaxPaths := opts.GetMaxPaths(newRoute.ECMPPathCount())\n\n\t\toldPathsLimit := int(math.Min(int(oldMaxPaths), len(oldRoute.Paths())))\n\t\tnewPathsLimit := int(math.Min(int(newMaxPaths), len(newRoute.Paths())))\n\n\t\twithdraw, found := cache[oldPathsLimit]\n\t\tif !found {\n\t\t\twithdraw = route.PathsDiff(oldRoute.Paths()[0:oldPathsLimit], newRoute.Paths()[0:newPathsLimit])\n\t\t\tcache[oldPathsLimit] = withdraw\n\t\t}\n", Expect: "diff-computed-for-this-client"},
+			{Name: "diff-cached-by-both-limits", Silent: true, File: "routingtable/locRIB/loc_rib.go", Old: "\tfor _, client := range a.clientManager.Clients() {\n\t\topts := a.clientManager.GetOptions(client)\n\t\toldMaxPaths := opts.GetMaxPaths(oldRoute.ECMPPathCount())\n\t\tnewMaxPaths := opts.GetMaxPaths(newRoute.ECMPPathCount())\n\n\t\toldPathsLimit := int(math.Min(int(oldMaxPaths), len(oldRoute.Paths())))\n\t\tnewPathsLimit := int(math.Min(int(newMaxPaths), len(newRoute.Paths())))\n\n\t\twithdraw := route.PathsDiff(oldRoute.Paths()[0:oldPathsLimit], newRoute.Paths()[0:newPathsLimit])\n", New: "\tcache := map[[2]int][]*route.Path{}\n\tfor _, client := range a.clientManager.Clients() {\n\t\topts := a.clientManager.GetOptions(client)\n\t\toldMaxPaths := opts.GetMaxPaths(oldRoute.ECMPPathCount())\n\t\tnewMaxPaths := opts.GetMaxPaths(newRoute.ECMPPathCount())\n\n\t\toldPathsLimit := int(math.Min(int(oldMaxPaths), len(oldRoute.Paths())))\n\t\tnewPathsLimit := int(math.Min(int(newMaxPaths), len(newRoute.Paths())))\n\n\t\twithdraw, found := cache[[2]int{oldPathsLimit, newPathsLimit}]\n\t\tif !found {\n\t\t\twithdraw = route.PathsDiff(oldRoute.Paths()[0:oldPathsLimit], newRoute.Paths()[0:newPathsLimit])\n\t\t\tcache[[2]int{oldPathsLimit, newPathsLimit}] = withdraw\n\t\t}\n"},
 			{Name: "announce-before-withdraw", File: "routingtable/locRIB/loc_rib.go", Old: "\ta.removePathsFromClients(oldRoute, newRoute)\n\ta.addPathsToClients(oldRoute, newRoute)", New: "\ta.addPathsToClients(oldRoute, newRoute)\n\ta.removePathsFromClients(oldRoute, newRoute)", Expect: "withdraw-before-announce"},
 			{Name: "old-copy-after-mutation", File: "routingtable/locRIB/loc_rib.go", Old: "\toldRoute := r.Copy()\n\terr := r.ReplacePath(oldPath, newPath)", New: "\terr := r.ReplacePath(oldPath, newPath)\n\toldRoute := r.Copy()", Expect: "snapshot-select-propagate"},
 			{Name: "initial-dump-ignores-ecmp-option", File: "routingtable/locRIB/loc_rib.go", Old: "\t\t} else if opts.EcmpOnly {\n\t\t\tn = r.ECMPPathCount()\n\t\t} else {\n\t\t\tn = opts.MaxPaths\n\t\t\tn = uint(math.Min(int(n), len(r.Paths())))\n\t\t}\n\n\t\tfor _, p := range r.Paths()[:n] {", New: "\t\t} else {\n\t\t\tn = opts.MaxPaths\n\t\t\tn = uint(math.Min(int(n), len(r.Paths())))\n\t\t}\n\n\t\tfor _, p := range r.Paths()[:n] {", Expect: "inline-limit-table"},
@@ -213,6 +215,7 @@ func runC04(c *core.Ctx) {
 
 	// (3) ------------------------------------------------------------------------------------------
 	c.Floor("limit-from-own-route", 8)
+	c.Floor("diff-computed-for-this-client", 2)
 	for _, spec := range []struct {
 		fn             *core.Fn
 		method         string
@@ -283,16 +286,56 @@ func runC04(c *core.Ctx) {
 			// path argument is the range variable over the PathsDiff result; prefix from the matching route
 			obj := core.ObjOf(f.Pkg, call.Args[1])
 			ok := false
+			stale := ""
 			for _, d := range core.DefsOf(f, obj) {
 				if lo := core.ObjOf(f.Pkg, d); lo != nil {
+					// the limits the difference depends on (the High bounds of the PathsDiff operands)
+					limits := map[types.Object]bool{}
 					for _, dd := range core.DefsOf(f, lo) {
 						if dc, isCall := core.Unparen(dd).(*ast.CallExpr); isCall && core.FuncKey(core.Callee(f.Pkg, dc)) == "route.PathsDiff" {
 							ok = true
+							for _, a := range dc.Args {
+								if se, isSlice := core.Unparen(a).(*ast.SliceExpr); isSlice && se.High != nil {
+									ast.Inspect(se.High, func(n ast.Node) bool {
+										if id, isId := n.(*ast.Ident); isId {
+											if v, isVar := f.Pkg.TypesInfo.Uses[id].(*types.Var); isVar && !v.IsField() {
+												limits[v] = true
+											}
+										}
+										return true
+									})
+								}
+							}
+						}
+					}
+					// every other value the list may hold is a difference computed for exactly these limits
+					for _, dd := range core.DefsOf(f, lo) {
+						dd = core.Unparen(dd)
+						if dc, isCall := dd.(*ast.CallExpr); isCall && core.FuncKey(core.Callee(f.Pkg, dc)) == "route.PathsDiff" {
+							continue
+						}
+						ix, isIx := dd.(*ast.IndexExpr)
+						if !isIx {
+							stale = "the list iterated for the client has a source other than the difference computed for this client"
+							continue
+						}
+						inKey := map[types.Object]bool{}
+						ast.Inspect(ix.Index, func(n ast.Node) bool {
+							if id, isId := n.(*ast.Ident); isId {
+								inKey[f.Pkg.TypesInfo.Uses[id]] = true
+							}
+							return true
+						})
+						for l := range limits {
+							if !inKey[l] {
+								stale = "the difference is looked up in a table whose key leaves out " + l.Name() + ", one of the two limits it was computed from: a client gets the difference computed for another client's window"
+							}
 						}
 					}
 				}
 			}
 			c.Check(ok, "limit-from-own-route", f.Name()+" client."+spec.method+" receives the diff's elements", call.Pos(), "the path handed to the client is not an element of the computed difference")
+			c.Check(stale == "", "diff-computed-for-this-client", f.Name()+" client."+spec.method+" receives the difference of this client's two windows", call.Pos(), stale)
 		}
 		other := "RemovePath"
 		if spec.method == "RemovePath" {
